@@ -146,11 +146,12 @@ class Prov:
         self.stack = []
         self.origin_fields = set()   # (adt, field) treated as leaves; filled by rules
         self.escape_memo = {}
+        self.param_memo = {}
         self.escape_fns = {}         # fnkey -> inlined result term of fns recognised as identifier escapes
         self.unknowns = []
 
     def is_origin_adt(self, adt):
-        if adt.startswith(ORIGIN_MODULES):
+        if adt.startswith(ORIGIN_MODULES) or adt in ORIGIN_ADTS:
             return True
         if not adt.startswith(WORKSPACE_PREFIXES):
             return True
@@ -221,7 +222,30 @@ class Prov:
 
     def eval_local(self, fn, hid, env, d):
         if hid in env:
-            return env[hid]
+            base = env[hid]
+            muts = [s for s in fn.binds.get(hid, ()) if s[0] in ('mut', 'mutfmt')]
+            if not muts:
+                return base
+            key = ('L', fn.key, hid)
+            if key in self.stack:
+                return base
+            self.stack.append(key)
+            try:
+                pushes, elems = [], []
+                for s in muts:
+                    if s[0] == 'mutfmt':
+                        a = self.macro_args(fn, s[1], env, d)
+                        pushes.append(('fmt', fmt_string(s[1]['text']), a[1:]))
+                    elif s[1] == 'push_str':
+                        pushes.append(self.eval(fn, s[2], env, d))
+                    else:
+                        elems.append(self.eval(fn, s[2], env, d))
+                t = join([base] + elems)
+                if pushes:
+                    t = ('fmt', 'push_str', (t,) + tuple(pushes))
+                return t
+            finally:
+                self.stack.pop()
         key = ('L', fn.key, hid)
         if key in self.stack:
             return ('rec', fn.bind_names.get(hid, hid))
@@ -236,7 +260,10 @@ class Prov:
             vals = []
             pushes = []
             for s in srcs:
-                if s[0] == 'mut' and s[1] == 'push_str':
+                if s[0] == 'mutfmt':
+                    a = self.macro_args(fn, s[1], env, d)
+                    pushes.append(('fmt', fmt_string(s[1]['text']), a[1:]))
+                elif s[0] == 'mut' and s[1] == 'push_str':
                     pushes.append(self.eval(fn, s[2], env, d))
                 else:
                     vals.append(self.eval_src(fn, s, env, d))
@@ -285,6 +312,8 @@ class Prov:
         key = ('P', fn.key, i)
         if key in self.stack:
             return ('rec', 'param')
+        if key in self.param_memo:
+            return self.param_memo[key]
         self.stack.append(key)
         try:
             vals = []
@@ -303,7 +332,10 @@ class Prov:
                 if p.get('k') == 'bind':
                     name = p['name']
                 return ('param', fn.key, i, name)
-            return join(vals)
+            res = join(vals)
+            if not self._has_rec(res):
+                self.param_memo[key] = res
+            return res
         finally:
             self.stack.pop()
 
@@ -313,7 +345,9 @@ class Prov:
         seen = set()
         cands = [p]
         m = re.match(r'^<(.+) as (.+)>::(\w+)$', p)
-        if m:
+        if m and m.group(2).startswith(WORKSPACE_PREFIXES):
+            # calls through a workspace trait (dyn / generic): every call of the trait method may reach this impl.
+            # For foreign traits (Display, Clone, ...) only call sites *resolved* to this impl count.
             cands.append(m.group(2) + '::' + m.group(3))
         for cp in cands:
             for (cfn, n) in self.prog.calls_norm.get(cp, []):
@@ -783,8 +817,10 @@ class Prov:
         p = norm_path(cal['path'])
         last = p.split('::')[-1]
         lfns = self.local_fns(cal)
-        if lfns:
+        if lfns and not p.startswith(OPAQUE_PREFIXES):
             return self.inline(lfns, args, d)
+        if lfns:
+            return ('call', p, tuple(args))
         dk = cal.get('dk', '')
         if dk.startswith('Ctor') or dk == 'SelfCtor':
             if p.endswith(('::Some', '::Ok')) or last in ('Some', 'Ok'):
@@ -879,6 +915,12 @@ WORKSPACE_PREFIXES = ('graphql_client_codegen::', 'graphql_query_derive::', 'gra
 # records that are *origins* of names/types: schema model, bound query model, options
 ORIGIN_MODULES = ('graphql_client_codegen::schema::', 'graphql_client_codegen::query::',
                   'graphql_client_codegen::codegen_options::', 'graphql_introspection_query::')
+
+# workspace fns treated as opaque origins (token scanners: analysed as a unit, not inlined)
+OPAQUE_PREFIXES = ('graphql_query_derive::attributes::',)
+
+ORIGIN_ADTS = {'graphql_client::Error', 'graphql_client::Response', 'graphql_client::Location', 'graphql_client::PathFragment',
+               'graphql_client::QueryBody', 'graphql_client::introspection_schema::Header'}
 
 MUTATOR_NAMES = {'push', 'push_str', 'extend', 'insert', 'reserve', 'sort', 'reverse', 'clear', 'remove', 'pop',
                  'dedup', 'retain', 'truncate', 'push_back', 'extend_from_slice', 'append'}
